@@ -69,6 +69,14 @@ def run(ctx):
         r.update(H.content(rnd, rnd.randrange(0, 3 * Bb), 0), padding=True)
         traces.append(r.trace(dict(kind='random-cuts'))); ctx.mark((name, 'rnd', q))
     ctx.exhaustive_subspaces.append('all %d call histories of depth <= %d (cont 0..2 blocks / bad continuation / final 0..1 blocks x 5 residue classes / over-long / re-init) over 14 hash objects (round-robin%s)' % (len(uniq), D, ', every third on all' if big else ''))
+    # two objects of the same class fed alternately (per-object pad state and counters must not be shared)
+    for name in (names if big else ['md5', 'md4', 'sha1', 'sha256', 'sha512', 'blake256']):
+        Bb = H.blockbytes(name)
+        ra, rb_ = H.Rec(name), H.Rec(name)
+        ra.init(); rb_.init()
+        ra.update(H.content(rnd, 2 * Bb, 0)); rb_.update(H.content(rnd, Bb, 0)); ra.update(H.content(rnd, Bb, 0)); rb_.update(H.content(rnd, 7, 0), padding=True)
+        ra.update(H.content(rnd, Bb + 9, 0), padding=True); rb_.init(); rb_.update(H.content(rnd, 3, 0), padding=True)
+        traces.append(ra.trace(dict(kind='interleaved-A'))); traces.append(rb_.trace(dict(kind='interleaved-B'))); ctx.mark((name, 'interleaved'))
     ctx.sample(dict(alg=traces[5]['name'], scen=traces[5]['scen'], events=[{k: v for k, v in e.items() if k != 'm'} for e in traces[5]['ev']]))
     H.validate(ctx, traces, 'piecewise histories')
     t2 = []
@@ -108,6 +116,15 @@ def run(ctx):
         for _ in range(8 if big else 2):
             d2 = words(rnd.randrange(10, 70)); cuts = sorted(rnd.randrange(len(d2) + 1) for _ in range(rnd.randrange(2, 6)))
             feed(target, [d2[x:y] for x, y in zip([0] + cuts, cuts + [len(d2)])], 'nil_multi')
+    for target in (None, 17):                       # digest() resets: consecutive digests from ONE object, including after very short inputs
+        o = N.Nilsimsa() if target is None else N.Nilsimsa(target)
+        for pieces in ([words(20)], [b'a'], [words(9), words(4)], [b'xy'], [words(30)], [b''], [words(3), b'', words(5)]):
+            e = dict(op='nil_multi', target=53 if target is None else target, pieces=[B(x) for x in pieces], raised='', obs=[])
+            try:
+                for x in pieces: o.update(x)
+                e['obs'] = B(o.digest())
+            except Exception as ex: e['raised'] = type(ex).__name__
+            nev.append(e)
     ntr = [dict(ev=nev[i:i + 8]) for i in range(0, len(nev), 8)]
     nbad = ctx.validate('trace/Trace_Simil.tla', ntr, lambda t: len(t['ev']), what='Nilsimsa cuts (Trace_Simil)')
     ctx.evaluations += len(nev)
